@@ -85,3 +85,16 @@ package cli
 //@   loop 1 invariant offset != nil && old(deref(offset)) > 12288 ==> deref(offset) >= 4096
 //@   ensures offset != nil && ir.buf == nil && old(deref(offset)) >= 1 ==> deref(offset) >= 1 && deref(offset) <= old(deref(offset))
 //@   ensures offset != nil && ir.buf == nil && old(deref(offset)) > 12288 ==> deref(offset) >= 4096
+
+// ---------------------------------------------------------------------------------------
+// C12: the command's encoder (cli/encoder.go). out(e.w) is the ghost content of the buffer.
+// ---------------------------------------------------------------------------------------
+
+//@ func (e *encoder) writeIndentInternal(n int, spaces string)
+//@   property C12
+//@   requires e.w != nil && n > 0 && len(spaces) >= 1 && len(spaces) < 1 << 20
+//@   requires forall k :: {spaces[k]} 0 <= k && k < len(spaces) ==> spaces[k] == spaces[0]
+//@   modifies out(e.w)
+//@   loop 1 invariant e.w == old(e.w) && n >= 0 && l >= 1 && n + len(out(e.w)) == n0 + len(old(out(e.w))) && l <= len(out(e.w)) - len(old(out(e.w)))
+//@   loop 1 invariant out(e.w) == old(out(e.w)) + rep(spaces[0], len(out(e.w)) - len(old(out(e.w))))
+//@   ensures out(e.w) == old(out(e.w)) + rep(spaces[0], n)
